@@ -298,15 +298,30 @@ class SyncClientWorld(ClientWorld):
     def _http(self, method, url, headers, data, timeout):
         rec = self._new_request(method, url, headers, data, timeout)
         rec['ev'] = hubmod.Event()
+        self._plog('http_enter', method, rec['body'])
         ok = rec['ev'].wait(timeout)
         rec['done'] = True
         if not ok or rec['reply'] is None:
             self.out.append({'k': 'reqto', 'id': rec['id']})
+            self._plog('http_ret', 'fail')
             raise _RequestException('timeout')
         kind, status, content = rec['reply']
         if kind == 'fail':
+            self._plog('http_ret', 'fail')
             raise _RequestException('connection failed (scripted)')
+        self._plog('http_ret', 'ok' if 200 <= status < 300 else 'bad')
         return _Resp(status, content)
+
+    def _plog(self, op, item='', items=()):
+        """L2 (polling client): one record per operation of the HTTP layer (hub.primlog): the
+        request leaving and the request returning are switch points of their own."""
+        lg = self.hub.primlog
+        if lg is not None and getattr(self.hub, 'log_http', False):
+            rec = {'t': getattr(self.hub.current, 'proc', None), 'op': op, 'item': item,
+                   'items': list(items), 'q': 'http'}
+            lg.append(rec)
+            self.hub.after_log(rec)
+            self.hub.yield_point()
 
     def _create_connection(self, url, opts):
         conn = {'id': len(self.conns) + 1, 'url': url, 'opts': opts, 'state': 'connecting',
